@@ -773,7 +773,17 @@ impl Trio {
         let dec = |x: Option<u128>| x.map(Decimal::raw);
         let res: Outcome<AppResponse> = match &op {
             ParsedOp::Provide(d, slip, recv) => {
-                let assets = [0, 1, 2].map(|i| Asset { info: w.infos[i].clone(), amount: Uint128::new(d[i]) });
+                // the order in which the caller lists the three assets must not matter: rotate / reverse
+                // it as a deterministic function of the amounts
+                let perm: [usize; 3] = match (d[0] ^ d[1] ^ d[2]) % 6 {
+                    0 => [0, 1, 2],
+                    1 => [1, 2, 0],
+                    2 => [2, 0, 1],
+                    3 => [2, 1, 0],
+                    4 => [0, 2, 1],
+                    _ => [1, 0, 2],
+                };
+                let assets = perm.map(|i| Asset { info: w.infos[i].clone(), amount: Uint128::new(d[i]) });
                 let funds: Vec<Coin> = (0..3).filter(|i| w.native[*i] && d[*i] > 0).map(|i| coin(d[i], DENOMS[i])).collect();
                 let msg = t::ExecuteMsg::ProvideLiquidity { assets, slippage_tolerance: dec(*slip), receiver: recv.map(|r| ACCTS[r].to_string()) };
                 let app = &mut w.app;
